@@ -44,7 +44,7 @@ def run(ctx):
     ce = ConstEval(prog)
     cc = prog.func("iodata.convert.convert_conventions")
     mb_cls = prog.cls("iodata.basis.MolecularBasis")
-    ctx.clauses_decided = ["R1 conventions applied (index, then scale)", "R2 target-table agreement", "R3 basis coherence", "R4 scale coherence", "R5 density matrices converted", "R6 prepare_dump guard matrix", "R7 written numbers are readable"]
+    ctx.clauses_decided = ["R1 conventions applied (index, then scale)", "R2 target-table agreement", "R3 basis coherence", "R4 scale coherence", "R5 density matrices converted", "R6 prepare_dump guard matrix", "R7 written numbers are readable", "R8 Molden pure/Cartesian tags"]
     ctx.clauses_declined = ["equality of orbital values / occupations / energies / densities to the digits printed", "Molekel '$$'-per-center encoding for unsorted centers", "spin-labelling heuristics of the WFN reader"]
     for rid, title, wit in (
         ("R1", "orbital coefficients are permuted, then sign-scaled, with the pair from one convert_conventions call", "rows in the wrong place or with the wrong sign for any shell whose convention differs from the target's"),
@@ -200,3 +200,78 @@ def run(ctx):
     # ------------------------------------------------------------------ R6
     ctx.rule("R6", "prepare_dump guard matrix", "an unsupported object reaches a writer that mis-writes it")
     check_guard_matrix(ctx, "R6")
+    check_molden_tags(ctx, ce)
+
+
+def check_molden_tags(ctx, ce):
+    """R8: the Molden writer's pure/Cartesian tags mean, to the Molden reader, the kinds that were written.
+
+    Both sides are evaluated over the whole finite domain (d, f, g each Cartesian or pure): the writer's tag
+    statements with a recording sink, then the reader's tag branch on each emitted line.
+    """
+    import itertools
+    import re
+
+    from ..consteval import NotConstant, Sink, _Env
+
+    prog = ctx.prog
+    ctx.rule("R8", "Molden pure/Cartesian tags: what the writer emits means the written kinds to the reader", "a d-pure/f-Cartesian (or similar) basis is tagged so that the reader assumes other shell sizes: the file cannot be read back or is misread")
+    do = prog.format_op("molden", "dump_one")
+    lo = prog.func("iodata.formats.molden._load_low")
+    tagre = re.compile(r"\[\d+[dfg]", re.I)
+    # writer: the maximal run of top-level statements that write tag constants
+    wst = [st for st in do.body if any(isinstance(x, ast.Constant) and isinstance(x.value, str) and tagre.match(x.value) for x in ast.walk(st))]
+    kv = None
+    dict_locals = {t.id for n_ in do.own_nodes() if isinstance(n_, ast.Assign) and isinstance(n_.value, ast.Dict) for t in n_.targets if isinstance(t, ast.Name)}
+    for st in wst:
+        for x in ast.walk(st):
+            if isinstance(x, ast.Subscript) and isinstance(x.value, ast.Name) and x.value.id in dict_locals:
+                kv = x.value.id
+    fparam = do.posparams[0]
+    # reader: the if-chain whose tests mention the tags
+    rchain = None
+    for n in lo.own_nodes():
+        if isinstance(n, ast.If) and any(isinstance(x, ast.Constant) and isinstance(x.value, str) and tagre.match(x.value) for x in ast.walk(n.test)):
+            par = prog.parents(lo).get(id(n))
+            if not (isinstance(par, ast.If) and n in par.orelse):
+                rchain = n
+    if not wst or kv is None or rchain is None:
+        ctx.violate("R8", "cannot find the tag-writing statements of molden.dump_one / the tag branch of molden._load_low", do, do.node, construct="molden tag code")
+        return
+    line_var = next((x.id for x in ast.walk(rchain.test) if isinstance(x, ast.Name) and x.id not in ("str",)), None)
+    set_var = None
+    for x in ast.walk(rchain):
+        if isinstance(x, ast.Call) and isinstance(x.func, ast.Attribute) and x.func.attr == "add" and isinstance(x.func.value, ast.Name):
+            set_var = x.func.value.id
+    if line_var is None or set_var is None:
+        ctx.violate("R8", "tag branch of the Molden reader has an unexpected shape", lo, rchain, construct="molden reader tag chain")
+        return
+    # how the reader normalises a line before the chain
+    bad = []
+    n = 0
+    for kinds in itertools.product("cp", repeat=3):
+        want = {l for l, k in zip((2, 3, 4), kinds) if k == "p"}
+        sink = Sink()
+        env = _Env(ce, do.module, do, {kv: {2: kinds[0], 3: kinds[1], 4: kinds[2], 5: kinds[2]}, fparam: sink})
+        try:
+            env.run(wst)
+        except NotConstant as exc:
+            raise AnalysisError(f"molden tag writer is outside the constant-evaluation whitelist: {exc}") from exc
+        lines = [ln for ln in "".join(sink.text).split("\n") if ln.strip()]
+        got = set()
+        unknown = []
+        for ln in lines:
+            renv = _Env(ce, lo.module, lo, {line_var: ln.lower().strip(), set_var: got})
+            try:
+                renv.run([rchain])
+            except NotConstant:
+                unknown.append(ln)
+        got = {l for l in got if l in (2, 3, 4)}
+        n += 1
+        if unknown or got != want:
+            bad.append((kinds, lines, sorted(got), sorted(want), unknown))
+    if bad:
+        kinds, lines, got, want, unknown = bad[0]
+        ctx.violate("R8", f"kinds d,f,g = {kinds}: the writer emits {lines}, which the reader takes as pure l = {got}" + (f" (unrecognised: {unknown})" if unknown else "") + f", written pure l = {want} ({len(bad)} of {n} combinations differ)", do, wst[0], construct=f"molden tags {''.join(kinds)}: {lines}")
+    else:
+        ctx.ok("R8", f"all {n} combinations of Cartesian/pure d, f, g shells: tags written by dump_one are read back as the same kinds", f"{do.module.relpath}:{wst[0].lineno}")
